@@ -423,3 +423,383 @@ def f_contig_tiny(ids, rng, sample=1.0, ifaces=("rec",), sizes=((2, 3), (3, 2), 
                         col += 64
                 out.append(scn(ids, c, calls, tag="contig"))
     return out
+
+
+# ------------------------------------------------------------------------- transports addressed directly (C06, C07, C20)
+
+def split16(n):
+    return [n >> 16, n & 0xFFFF]
+
+
+def xcfg(iface, buf=0):
+    return {"model": "none", "iface": iface, "buf": buf}
+
+
+RAMWR = {"name": "xport.send_command", "op": 44, "params": []}
+
+
+def pix_words(rng, n, wbits, kind="rand", base=0):
+    m = (1 << wbits) - 1
+    if kind == "same":
+        v = rng.randrange(m + 1)
+        return [v] * n
+    if kind == "seq":
+        return [(base + i) & m for i in range(n)]
+    return [rng.randrange(m + 1) for _ in range(n)]
+
+
+def f_spi_grid(ids, rng, sample=1.0, big=0):
+    """the real SpiInterface over the recording SPI device: buffer lengths N..4N+1, counts 0..3*capacity+2,
+    parameter lengths 0..17, distinct byte values (so that loss, duplication, reordering and stale bytes show)"""
+    out = []
+    for n in (1, 2, 3):
+        for buf in list(range(n, 4 * n + 2)) + [64]:
+            cap = buf // n
+            counts = sorted(set(list(range(0, 3 * cap + 3)) + [7 * cap, 7 * cap + 1]))
+            if sample < 1.0:
+                counts = [c for c in counts if c in (0, 1, cap, cap + 1, 2 * cap) or rng.random() < sample]
+            calls = [RAMWR]
+            for cnt in counts:
+                calls.append({"name": "xport.send_pixels", "n": n,
+                              "px": [pix_words(rng, n, 8, "seq", base=rng.randrange(256)) for _ in range(cnt)]})
+            out.append(scn(ids, xcfg("spi", buf), calls, tag="spi-pixels", budget=20000))
+            calls = [RAMWR]
+            for cnt in counts:
+                calls.append({"name": "xport.send_repeated_pixel", "n": n,
+                              "pixel": pix_words(rng, n, 8, rng.choice(["rand", "seq", "same"])), "count": split16(cnt)})
+            out.append(scn(ids, xcfg("spi", buf), calls, tag="spi-repeat", budget=20000))
+    # commands with parameter lists of length 0..17+
+    for buf in (1, 2, 3, 5, 64):
+        calls = []
+        for ln in list(range(0, 19)) + [32]:
+            op = rng.choice([0x2A, 0x2B, 0x36, 0x3A, 0xB1, 0xE0, 0xF0, 0x11, 0x29, 0x2C, 0x00, 0xFF])
+            calls.append({"name": rng.choice(["xport.send_command", "xport.write_raw"]), "op": op,
+                          "params": [(17 * ln + 3 * i + 1) % 256 for i in range(ln)]})
+        out.append(scn(ids, xcfg("spi", buf), calls, tag="spi-commands", budget=20000))
+    # larger seeded random buffers / counts
+    for _ in range(big):
+        n = rng.choice([2, 3])
+        buf = rng.choice([n, n + 1, 63, 64, 65, 255, 256, 1000, 4096])
+        cap = buf // n
+        calls = [RAMWR]
+        for _ in range(3):
+            cnt = rng.choice([0, 1, cap - 1, cap, cap + 1, 2 * cap, 3 * cap + 1, rng.randrange(0, 20000)])
+            cnt = max(cnt, 0)
+            if rng.random() < 0.5:
+                calls.append({"name": "xport.send_repeated_pixel", "n": n, "pixel": pix_words(rng, n, 8), "count": split16(cnt)})
+            else:
+                cnt = min(cnt, 3000)
+                calls.append({"name": "xport.send_pixels", "n": n, "px": [pix_words(rng, n, 8) for _ in range(cnt)]})
+            calls.append(RAMWR)
+        out.append(scn(ids, xcfg("spi", buf), calls, tag="spi-big", budget=200000))
+    return out
+
+
+def walking(wbits):
+    m = (1 << wbits) - 1
+    vals = [0, m, 0x5555 & m, 0xAAAA & m]
+    for i in range(wbits):
+        vals.append(1 << i)
+        vals.append(m ^ (1 << i))
+    return vals
+
+
+def f_parallel(ids, rng, sample=1.0, big=0):
+    """the real ParallelInterface + Generic{8,16}BitBus over recording pins"""
+    out = []
+    for iface, wbits in (("p8", 8), ("p16", 16)):
+        alpha = walking(wbits)
+        # word sequences incl. equal consecutive words
+        for n in (1, 2, 3):
+            calls = [RAMWR]
+            for _ in range(10 if sample >= 1 else 4):
+                cnt = rng.randrange(0, 6)
+                px = []
+                for _ in range(cnt):
+                    kind = rng.random()
+                    if kind < 0.3 and px:
+                        px.append(list(px[-1]))
+                    elif kind < 0.5:
+                        v = rng.choice(alpha); px.append([v] * n)
+                    else:
+                        px.append([rng.choice(alpha) for _ in range(n)])
+                calls.append({"name": "xport.send_pixels", "n": n, "px": px})
+            out.append(scn(ids, xcfg(iface), calls, tag="par-pixels"))
+            calls = [RAMWR]
+            for cnt in (0, 1, 2, 3, 4, 7):
+                for same in (True, False):
+                    if n == 1 and not same:
+                        continue
+                    if same:
+                        v = rng.choice(alpha); pixel = [v] * n
+                    else:
+                        pixel = [rng.choice(alpha) for _ in range(n)]
+                        if len(set(pixel)) == 1:
+                            pixel[0] ^= 1
+                    calls.append({"name": "xport.send_repeated_pixel", "n": n, "pixel": pixel, "count": split16(cnt)})
+            out.append(scn(ids, xcfg(iface), calls, tag="par-repeat"))
+        # commands: instruction then parameters; D/C low only at the instruction
+        calls = []
+        for ln in list(range(0, 8)) + [16, 17]:
+            op = rng.choice([0x2A, 0x36, 0xB1, 0x2C, 0x00, 0xFF, 0x55, 0xAA])
+            calls.append({"name": "xport.send_command", "op": op, "params": [rng.choice(walking(8)) for _ in range(ln)]})
+        out.append(scn(ids, xcfg(iface), calls, tag="par-commands"))
+        # every value after every value on the bus directly (change mask), walking patterns
+        busname = "bus8" if wbits == 8 else "bus16"
+        seq = []
+        for a in alpha:
+            seq.append(a)
+            seq.append(rng.choice(alpha))
+        out.append(scn(ids, xcfg(busname), [{"name": "bus.set_value", "v": v} for v in seq + seq[:6] + [seq[5]] * 3], tag="bus-values"))
+        # histories with injected data-pin failures (both effect modes), followed by more values
+        for _ in range(int((40 if wbits == 8 else 60) * sample) + 4):
+            vals = [rng.choice(alpha + [rng.randrange(1 << wbits)]) for _ in range(rng.randrange(3, 9))]
+            # repeat a value right after a failure: the cache must not claim it
+            faults = []
+            calls = []
+            for i, v in enumerate(vals):
+                calls.append({"name": "bus.set_value", "v": v})
+                if rng.random() < 0.4:
+                    faults.append({"call": len(calls), "k": rng.randrange(1, wbits + 1), "effect": rng.random() < 0.5})
+                    calls.append({"name": "bus.set_value", "v": v})          # same value again
+                    if rng.random() < 0.5:
+                        calls.append({"name": "bus.set_value", "v": vals[i - 1] if i else v ^ 1})
+            s = scn(ids, xcfg(busname), calls, tag="bus-faults")
+            s["faults"] = faults
+            out.append(s)
+    for _ in range(big):
+        iface, wbits = rng.choice([("p8", 8), ("p16", 16)])
+        n = rng.choice([1, 2, 3])
+        v = rng.randrange(1 << wbits)
+        cnt = rng.choice([100, 1000, 65535, 65536, 65537, 100000])
+        out.append(scn(ids, xcfg(iface), [RAMWR, {"name": "xport.send_repeated_pixel", "n": n, "pixel": [v] * n, "count": split16(cnt)},
+                                         RAMWR, {"name": "xport.send_repeated_pixel", "n": 2, "pixel": [v, v ^ 1], "count": split16(min(cnt, 2000))}],
+                       tag="par-big"))
+    return out
+
+
+# ------------------------------------------------------------------------- init acceptance (C09)
+
+def f_init_grid(ids, rng, nrandom=2000, grid_sample=1.0):
+    out = []
+    fbs = [("tiny565_1x1", 1, 1), ("tiny565_4x3", 4, 3), ("st7789", 240, 320), ("tiny565_65535x65535", 65535, 65535),
+           ("tiny565_65535x1", 65535, 1), ("tiny565_1x65535", 1, 65535), ("gc9107", 128, 160)]
+
+    def vals(F):
+        return sorted({0, 1, 2, F - 1, F, F + 1, 32767, 32768, 65534, 65535, max(F // 2, 0)} & set(range(0, 65536)))
+
+    for model, W, H in fbs:
+        tuples = set()
+        for w in vals(W):
+            for ox in vals(W):
+                # one dimension at a time plus a sample of the full product
+                tuples.add((w, H, ox, 0)); tuples.add((w, 1, ox, H - 1)); tuples.add((w, 0, ox, 0))
+        for h in vals(H):
+            for oy in vals(H):
+                tuples.add((W, h, 0, oy)); tuples.add((1, h, W - 1, oy)); tuples.add((0, h, 0, oy))
+        full = list(itertools.product(vals(W), vals(H), vals(W), vals(H)))
+        rng.shuffle(full)
+        tuples.update(full[:int(400 * grid_sample)])
+        for _ in range(nrandom // len(fbs)):
+            r = rng.random()
+            if r < 0.3:
+                tuples.add(tuple(rng.randrange(65536) for _ in range(4)))
+            elif r < 0.6:   # near the acceptance boundary
+                w = rng.randrange(0, W + 2); h = rng.randrange(0, H + 2)
+                tuples.add((w, h, max(0, W - w + rng.randrange(-1, 2)), max(0, H - h + rng.randrange(-1, 2))))
+            else:           # wrap-around candidates: offset + size >= 65536
+                w = rng.randrange(1, 65536); h = rng.randrange(1, 65536)
+                tuples.add((w, h, (65536 - w + rng.randrange(0, 3)) % 65536, (65536 - h + rng.randrange(0, 3)) % 65536))
+        for (w, h, ox, oy) in sorted(tuples):
+            if not all(0 <= v <= 65535 for v in (w, h, ox, oy)):
+                continue
+            c = cfg(model, w, h, ox, oy, rng.randrange(4), rng.random() < 0.5, iface=rng.choice(["rec", "spi"]) if W < 1000 else "rec",
+                    buf=16, rst=rng.random() < 0.5)
+            out.append(scn(ids, c, [INIT], tag="init-grid"))
+    return out
+
+
+# ------------------------------------------------------------------------- model initialisation (C11, C17, C05-colmod)
+
+def option_sets(rng, full):
+    allopts = list(itertools.product((False, True), ORIENTS, (False, True), (0, 1), (0, 1), (True, False)))
+    if full:
+        return allopts
+    # pairwise-ish cover: a latin-style sample plus the corners
+    rng.shuffle(allopts)
+    return allopts[:10]
+
+
+def f_model_init(ids, rng, full=False, after=True):
+    out = []
+    for name, (W, H, col, ifs) in MODELS.items():
+        kinds = []
+        for phys in ("spi", "p8", "p16"):
+            if phys in ifs or (name in ("gc9107", "rm67162") and phys == "p16") or (name == "ili9486_565" and phys == "spi"):
+                # a Display can be built (supported or refused at run time)
+                if phys == "p16" and col == "666":
+                    continue
+                kinds.append((phys, False))
+                kinds.append((REC_OF[phys], False))
+        # kinds that the colour type hides from Builder: Model::init directly
+        for rec in ("rec", "rec_p8", "rec_p16"):
+            kinds.append((rec, True))
+        for (iface, direct) in kinds:
+            for (bgr, (rot, mir), inv, refv, refh, rst) in option_sets(rng, full):
+                c = cfg(name, None, None, None, None, rot, mir, iface=iface, buf=rng.choice([3, 16, 64]), rst=rst and not direct,
+                        bgr=bgr, inv=inv, refv=refv, refh=refh)
+                if direct:
+                    out.append(scn(ids, c, [{"name": "model_init"}], tag="model-init-direct"))
+                else:
+                    calls = [INIT]
+                    if after:
+                        r2, m2 = rng.choice(ORIENTS)
+                        calls.append({"name": "set_orientation", "rot": r2, "mir": m2})
+                        calls.append({"name": "set_pixel", "x": 0, "y": 0, "c": 0x1234})
+                    out.append(scn(ids, c, calls, tag="model-init"))
+    return out
+
+
+# ------------------------------------------------------------------------- lifecycle (C13)
+
+def f_lifecycle(ids, rng, n_per_model=3, length=12, models=None, ifaces=None):
+    out = []
+    for name in (models or MODELS.keys()):
+        W, H, col, ifs = MODELS[name]
+        for _ in range(n_per_model):
+            phys = rng.choice(ifs)
+            iface = rng.choice([phys, REC_OF[phys]]) if ifaces is None else rng.choice(ifaces)
+            w = rng.randrange(1, 9); h = rng.randrange(1, 9)
+            c = cfg(name, w, h, rng.randrange(0, W - w + 1), rng.randrange(0, H - h + 1), rng.randrange(4), rng.random() < 0.5,
+                    iface=iface, buf=rng.choice([3, 16, 64]), rst=rng.random() < 0.5)
+            calls = [INIT]
+            for _ in range(rng.randrange(2, length + 1)):
+                k = rng.choice(["sleep", "sleep", "wake", "wake", "draw", "orient", "scroll", "tear", "clear"])
+                if k in ("sleep", "wake"):
+                    calls.append({"name": k})
+                elif k == "draw":
+                    calls.append({"name": "set_pixel", "x": 0, "y": 0, "c": rng.randrange(65536)})
+                elif k == "orient":
+                    r2, m2 = rng.choice(ORIENTS)
+                    calls.append({"name": "set_orientation", "rot": r2, "mir": m2})
+                elif k == "scroll":
+                    calls.append({"name": "scroll_offset", "v": rng.randrange(65536)})
+                elif k == "tear":
+                    calls.append({"name": "tearing", "mode": rng.choice(["off", "v", "hv"])})
+                else:
+                    calls.append({"name": "clear", "c": rng.randrange(65536)})
+            out.append(scn(ids, c, calls, tag="lifecycle"))
+    return out
+
+
+# ------------------------------------------------------------------------- scrolling (C16)
+
+def f_scroll(ids, rng, nrandom=200, offsets="sample"):
+    out = []
+    models = list(MODELS.keys()) + ["tiny565_1x1", "tiny565_65535x65535", "tiny565_1x65535", "tiny565_4x3"]
+    for name in models:
+        if name in MODELS:
+            W, H = MODELS[name][0], MODELS[name][1]
+        else:
+            W, H = [int(v) for v in name.split("_")[1].split("x")]
+        bv = sorted({0, 1, 2, H - 1, H, H + 1, H // 2, 32767, 32768, 65534, 65535} & set(range(65536)))
+        pairs = list(itertools.product(bv, bv))
+        for _ in range(nrandom // len(models) + 1):
+            t = rng.randrange(65536)
+            pairs.append((t, rng.choice([rng.randrange(65536), max(H - t, 0) % 65536, (H - t + 1) % 65536, (65536 - t) % 65536])))
+        rng.shuffle(pairs)
+        for chunk in range(0, len(pairs), 40):
+            rot, mir = rng.choice(ORIENTS)
+            iface = "rec" if name not in MODELS else rng.choice([REC_OF[MODELS[name][3][0]], "rec" if "spi" in MODELS[name][3] else "rec_p8"])
+            c = cfg(name, 1, 1, 0, 0, rot, mir, iface=iface)
+            calls = [INIT]
+            for (t, b) in pairs[chunk:chunk + 40]:
+                calls.append({"name": "scroll_region", "top": t, "bottom": b})
+                if rng.random() < 0.3:
+                    calls.append({"name": "scroll_offset", "v": rng.choice(bv + [rng.randrange(65536)])})
+            out.append(scn(ids, c, calls, tag="scroll"))
+    if offsets == "all":
+        for base in range(0, 65536, 4096):
+            c = cfg("st7789", 1, 1, 0, 0, 0, False, iface="rec")
+            out.append(scn(ids, c, [INIT] + [{"name": "scroll_offset", "v": v} for v in range(base, base + 4096)], tag="scroll-offsets"))
+    return out
+
+
+# ------------------------------------------------------------------------- fault enumeration (C12)
+
+FAULT_OPS = [
+    {"name": "set_pixel", "x": 1, "y": 0, "c": 0x0F0F},
+    {"name": "set_pixels", "win": [0, 0, 1, 1], "colors": [1, 2, 3, 4]},
+    {"name": "draw_iter", "px": [[0, 0, 11], [1, 0, 12], [0, 1, 13], [1, 1, 14], [1, 0, 15]]},
+    {"name": "fill_solid", "rect": [0, 0, 2, 2], "c": 0x1111},
+    {"name": "fill_solid", "rect": [-1, -1, 3, 2], "c": 0x1234},
+    {"name": "fill_contiguous", "rect": [-1, 0, 3, 2], "colors": {"start": 500, "len": -1}},
+    {"name": "clear", "c": 0x00FF},
+    {"name": "set_orientation", "rot": 1, "mir": True},
+    {"name": "set_orientation", "rot": 2, "mir": False},
+    {"name": "scroll_region", "top": 1, "bottom": 1},
+    {"name": "scroll_offset", "v": 0x0102},
+    {"name": "tearing", "mode": "hv"},
+    {"name": "tearing", "mode": "off"},
+    {"name": "sleep"},
+    {"name": "wake"},
+]
+
+
+def fault_bases(ids, rng, quick):
+    """fault-free base scenarios; each carries _target (index of the call whose low-level operations are
+    failed one by one) and _ksample (fraction of k to take)"""
+    out = []
+    # A: init of every model on every physical transport it supports
+    for name, (W, H, col, ifs) in MODELS.items():
+        for iface in ifs:
+            for rst in (True, False):
+                if quick and not rst and iface != "spi":
+                    continue
+                c = cfg(name, 3, 2, W - 3, H - 2, rng.randrange(4), rng.random() < 0.5, iface=iface, buf=rng.choice([3, 6, 64]), rst=rst,
+                        bgr=rng.random() < 0.5, inv=rng.random() < 0.5)
+                s = scn(ids, c, [INIT], tag="fault-init")
+                s["_target"] = 1
+                s["_ksample"] = (1.0 if iface == "spi" else 0.06) if quick else 1.0
+                out.append(s)
+    # B: every other driver operation
+    plats = [("tiny565_4x3", 3, 2, 1, 1, ["spi", "p8", "p16", "rec"]), ("tiny666_3x2", 2, 2, 1, 0, ["spi", "p8"]),
+             ("st7789", 3, 2, 237, 318, ["spi", "p16"]), ("ili9486_666", 2, 2, 0, 478, ["spi"])]
+    for (model, w, h, ox, oy, ifaces) in plats:
+        for iface in ifaces:
+            for op in FAULT_OPS:
+                rot, mir = rng.choice(ORIENTS)
+                c = cfg(model, w, h, ox, oy, rot, mir, iface=iface, buf=rng.choice([2, 3, 4, 6, 64]) if model.startswith("tiny565") else rng.choice([3, 6, 64]),
+                        rst=True, bgr=rng.random() < 0.5)
+                lw, lh = lsize(w, h, rot)
+                pre = [INIT, {"name": "clear", "c": 0x0A0A}]
+                if op["name"] == "wake":
+                    pre.append({"name": "sleep"})
+                op2 = dict(op)
+                if op2["name"] == "set_pixels":
+                    op2["win"] = [0, 0, lw - 1, lh - 1]; op2["colors"] = list(range(1, lw * lh + 1))
+                post = [{"name": "clear", "c": 0x0B0B}, {"name": "set_pixel", "x": lw - 1, "y": lh - 1, "c": 7},
+                        {"name": "draw_iter", "px": [[0, 0, 21], [1, 0, 22], [lw, 0, 23]]}]
+                s = scn(ids, c, pre + [op2] + post, tag="fault-op")
+                s["_target"] = len(pre) + 1
+                s["_ksample"] = (1.0 if iface in ("spi", "rec") else 0.25) if quick else 1.0
+                out.append(s)
+    return out
+
+
+def fault_expand(ids, rng, base, nf):
+    """all (or a seeded sample of) k in 1..nf for the target call of a base scenario"""
+    out = []
+    ks = list(range(1, nf + 1))
+    frac = base.get("_ksample", 1.0)
+    if frac < 1.0:
+        keep = {1, nf}
+        keep.update(k for k in ks if rng.random() < frac)
+        ks = sorted(keep & set(ks))
+    for k in ks:
+        s = {kk: v for kk, v in base.items() if not kk.startswith("_")}
+        s["id"] = ids.next()
+        s["faults"] = [{"call": base["_target"], "k": k, "effect": False}]
+        s["tag"] = base["tag"]
+        out.append(s)
+    return out
